@@ -56,6 +56,7 @@ enum PacketSentInfo {
 }
 
 #[derive(Debug)]
+#[cfg_attr(feature = "verif", derive(Clone))]
 enum ChannelOrder {
     Reliable(u8),
     Unreliable(u8),
@@ -72,6 +73,7 @@ pub struct NetworkInfo {
 
 /// The connection status of a [`RenetClient`].
 #[derive(Debug)]
+#[cfg_attr(feature = "verif", derive(Clone))]
 pub enum RenetConnectionStatus {
     Connected,
     Connecting,
@@ -79,6 +81,7 @@ pub enum RenetConnectionStatus {
 }
 
 #[derive(Debug)]
+#[cfg_attr(feature = "verif", derive(Clone))]
 pub struct RenetClient {
     packet_sequence: u64,
     current_time: Duration,
@@ -689,6 +692,95 @@ impl RenetClient {
     pub(crate) fn disconnect_with_reason(&mut self, reason: DisconnectReason) {
         if !self.is_disconnected() {
             self.connection_status = RenetConnectionStatus::Disconnected { reason };
+        }
+    }
+}
+
+#[cfg(feature = "verif")]
+impl RenetClient {
+    /// Verification hook: canonical (sorted) read-only view of the connection state.
+    pub fn verif_snapshot(&self) -> crate::verif::ConnectionSnapshot {
+        use crate::verif::*;
+        let mut sent_packets: Vec<SentPacketSnapshot> = Vec::with_capacity(self.sent_packets.len());
+        for (&sequence, sent) in self.sent_packets.iter() {
+            let info = match &sent.info {
+                PacketSentInfo::None => SentInfoSnapshot::None,
+                PacketSentInfo::ReliableMessages { channel_id, message_ids } => SentInfoSnapshot::ReliableMessages {
+                    channel_id: *channel_id,
+                    message_ids: message_ids.clone(),
+                },
+                PacketSentInfo::ReliableSliceMessage {
+                    channel_id,
+                    message_id,
+                    slice_index,
+                } => SentInfoSnapshot::ReliableSlice {
+                    channel_id: *channel_id,
+                    message_id: *message_id,
+                    slice_index: *slice_index,
+                },
+                PacketSentInfo::Ack { largest_acked_packet } => SentInfoSnapshot::Ack {
+                    largest_acked_packet: *largest_acked_packet,
+                },
+            };
+            sent_packets.push(SentPacketSnapshot {
+                sequence,
+                sent_at: sent.sent_at,
+                info,
+            });
+        }
+
+        let mut send_reliable: Vec<_> = self.send_reliable_channels.values().map(|c| c.verif_snapshot()).collect();
+        send_reliable.sort_by_key(|c| c.channel_id);
+        let mut send_unreliable: Vec<_> = self.send_unreliable_channels.values().map(|c| c.verif_snapshot()).collect();
+        send_unreliable.sort_by_key(|c| c.channel_id);
+        let mut receive_reliable: Vec<_> = self.receive_reliable_channels.iter().map(|(id, c)| c.verif_snapshot(*id)).collect();
+        receive_reliable.sort_by_key(|c| c.channel_id);
+        let mut receive_unreliable: Vec<_> = self.receive_unreliable_channels.values().map(|c| c.verif_snapshot()).collect();
+        receive_unreliable.sort_by_key(|c| c.channel_id);
+
+        let status = match self.connection_status {
+            RenetConnectionStatus::Connected => StatusSnapshot::Connected,
+            RenetConnectionStatus::Connecting => StatusSnapshot::Connecting,
+            RenetConnectionStatus::Disconnected { reason } => StatusSnapshot::Disconnected(reason),
+        };
+
+        ConnectionSnapshot {
+            packet_sequence: self.packet_sequence,
+            current_time: self.current_time,
+            pending_acks: self.pending_acks.clone(),
+            sent_packets,
+            send_reliable,
+            send_unreliable,
+            receive_reliable,
+            receive_unreliable,
+            available_bytes_per_tick: self.available_bytes_per_tick,
+            status,
+        }
+    }
+
+    /// Verification hook: start the packet sequence counter at a chosen value (varint width classes).
+    pub fn verif_set_packet_sequence(&mut self, packet_sequence: u64) {
+        self.packet_sequence = packet_sequence;
+    }
+
+    /// Verification hook: start the reliable message id counter of a send channel at a chosen value.
+    pub fn verif_set_next_reliable_message_id(&mut self, channel_id: u8, message_id: u64) {
+        if let Some(channel) = self.send_reliable_channels.get_mut(&channel_id) {
+            channel.verif_set_next_message_id(message_id);
+        }
+    }
+
+    /// Verification hook: start the sliced message id counter of an unreliable send channel at a chosen value.
+    pub fn verif_set_sliced_message_id(&mut self, channel_id: u8, message_id: u64) {
+        if let Some(channel) = self.send_unreliable_channels.get_mut(&channel_id) {
+            channel.verif_set_sliced_message_id(message_id);
+        }
+    }
+
+    /// Verification hook: make a receive reliable channel expect `message_id` next (peer started at that id).
+    pub fn verif_set_oldest_pending_message_id(&mut self, channel_id: u8, message_id: u64) {
+        if let Some(channel) = self.receive_reliable_channels.get_mut(&channel_id) {
+            channel.verif_set_oldest_pending_message_id(message_id);
         }
     }
 }
